@@ -64,6 +64,28 @@ theorem mem_setSeq {s : St} {q0 q : Seq} (h : q ∈ (setSeq s q0).seqs) : q ∈ 
 @[simp] theorem setSeq_burned (s : St) (q : Seq) : (setSeq s q).burned = s.burned := rfl
 @[simp] theorem setSeq_obsolete (s : St) (q : Seq) : (setSeq s q).obsolete = s.obsolete := rfl
 
+theorem getBal_setBal (b : List (Addr × Nat)) (a : Addr) (v : Nat) : getBal (setBal b a v) a = v := by
+  unfold getBal setBal
+  by_cases h : b.any (·.1 == a) = true
+  · rw [if_pos h]
+    induction b with
+    | nil => simp at h
+    | cons x xs ih =>
+      simp only [List.map_cons, List.find?_cons]
+      by_cases hx : (x.1 == a) = true
+      · simp [hx]
+      · simp only [hx]
+        simp only [Bool.false_eq_true, if_false]
+        simp only [hx]
+        have : xs.any (·.1 == a) = true := by simpa [hx] using h
+        exact ih this
+  · rw [if_neg h]
+    have hn : b.find? (·.1 == a) = none := by
+      apply List.find?_eq_none.2
+      intro x hx hc
+      exact h (List.any_eq_true.2 ⟨x, hx, hc⟩)
+    rw [List.find?_append, hn]; simp
+
 -- ---------------------------------------------------------------- "for all rollapps" invariants
 
 /-- `RaAll Q s`: every rollapp record of the state satisfies `Q` -/
